@@ -43,6 +43,7 @@ def run_c11(ctx):
     reqs = []; meta = []
     try:
         for ci in range(30 if ctx.quick() else 500):
+            vlib.pandas_mode(ci)
             g = nsgen.gen_graph(rng, n_ns=rng.randint(1, 3), n_nodes=rng.randint(2, 7), hostile=False, with_values=False, dangling=False)
             own = [k for k in g.order if k[0] != UA]
             if len(own) >= 2 and rng.random() < 0.5:        # one browse name carried by nodes of two classes
@@ -70,9 +71,12 @@ def run_c11(ctx):
             for kind, dsv in variants:
                 if not dsv: continue
                 files = [(n, docs.render(d, rng)) for n, d, _ in dsv]
+                if ci % 3 == 1: files = [(n, docs.entityfy(t, random.Random(ci * 17 + k))) for k, (n, t) in enumerate(files)]   # entity spelling, same infoset
                 paths = write_files(work, files)
                 pre, res = parsecmp.impl_parse(work, files)
-                if pre[0] != "ok": continue
+                if pre[0] != "ok":
+                    # every variant is a set of well-formed NodeSet documents: a set that cannot even be parsed cannot be judged "closed or not"
+                    ctx.fail("C11/documents-not-parsed", dict(kind="docset", files=files), "variant %s: parsing raised %r" % (kind, pre[1:3])); continue
                 st, G = build(paths)
                 gn, rf = tables(res)
                 ids = [n[0] for n in gn]
@@ -93,6 +97,19 @@ def run_c11(ctx):
                     want = ["missing-sources", ms] if ms else ["missing-targets", mt]
                     if impl[0] == "closed": ctx.fail("C11/open-graph-accepted", case, "expected %r" % (want,))
                     elif impl != want: ctx.fail("C11/message", case, "message says %r, expected %r" % (impl, want))
+                # the same question asked of the DOCUMENTS (not of the parser's tables): every declared reference has both ends defined in the set
+                try:
+                    defined = set(); ends = []
+                    for fn_, d_, local_ in dsv:
+                        al_ = dict(d_["aliases"] or [])
+                        for n_ in d_["nodes"]:
+                            k_ = parseprops.resolve_text(dict(n_["attrs"])["NodeId"], local_, al_); defined.add(k_)
+                            for ty_, fwd_, trg_ in (n_["refs"] or []):
+                                ends.append((k_, parseprops.resolve_text(trg_.strip(), local_, al_)))
+                    doc_closed = all(a_ in defined and b_ in defined for a_, b_ in ends)
+                    if doc_closed != (impl[0] == "closed") and impl[0] != "other-error":
+                        ctx.fail("C11/closure-vs-documents", case, "the documents are %s under their references, the constructor %s" % ("closed" if doc_closed else "not closed", "accepted them" if impl[0] == "closed" else "rejected them: %r" % (impl,)))
+                except (KeyError, ValueError, IndexError): pass
                 # look-ups on the built graph (every other graph held with other row labels / row order)
                 if G is not None:
                     import writeprops
@@ -158,6 +175,7 @@ def run_c17(ctx):
     reqs = []; meta = []
     try:
         for ci in range(35 if ctx.quick() else 600):
+            vlib.pandas_mode(ci)
             g = nsgen.gen_graph(rng, n_ns=1, n_nodes=rng.randint(1, 3), hostile=False, with_values=True, dangling=False, value_gen=parseprops.value_gen)
             # the first cases are fixed shapes: EnumStrings with a reserved position and variables on both sides of it; EnumValues; two types
             if ci < 4: desc = nsgen.add_enums(g, rng, n_types=1, flavours=["strings"], n_vars=3, kinds=["in", "in", "in"], placeholder=True)
@@ -402,12 +420,18 @@ def run_c16(ctx):
         big_at = len(sweep); sweep.append([(T.UAInt32(7), "Int32"), (T.UAString("x"), "Int32")])
         n_rand = 35 if ctx.quick() else 600
         for ci in range(len(sweep) + n_rand):
+            vlib.pandas_mode(ci)
             g = nsgen.gen_graph(rng, n_ns=1, n_nodes=rng.randint(0, 2), hostile=False, with_values=False, dangling=False)
             if ci == big_at:
                 for j in range(1500):
                     ok_ = (g.uris[0], "i", str(20000 + j)); g.nodes[ok_] = dict(cls="UAObject", bname=(g.uris[0], "Obj%d" % j), display="Obj%d" % j, desc=None, attrs={}, value=None); g.order.append(ok_)
                     g.refs.append(((UA, "i", "85"), ok_, (UA, "i", "35")))
-            if ci < len(sweep): vars_ = nsgen.add_typed_variables(g, rng, spec=sweep[ci], n_custom=1)
+            if ci < len(sweep):
+                vars_ = nsgen.add_typed_variables(g, rng, spec=sweep[ci], n_custom=1)
+                # every second sweep case declares a ValueRank: Any (-2) and ScalarOrOneDimension (-3) legally hold a scalar, 1 an array
+                if ci % 2 == 1:
+                    for vk_, dv_ in vars_.items():
+                        g.nodes[vk_]["attrs"]["ValueRank"] = "1" if isinstance(dv_["value"], T.UAListOf) else ["-2", "-3", "-1"][ci % 3]
             else: vars_ = nsgen.add_typed_variables(g, rng, make_value=c16_value)
             # every third graph also holds a namespace the written one does not use, in a file that is parsed BEFORE the base nodeset
             fnames = None
